@@ -40,7 +40,7 @@ def run(ctx):
     ctx.notes["g2_histories"] = len(g2)
     # histories without a link say nothing about C21
     g2 = [h for h in g2 if any(op["ev"] == "link" for op in h)]
-    hists += fc.sample_pref(rng, g2, 2000 if ctx.thorough else 300, fc.link_then(("write", "create", "delete", "rename")), 0.8)
+    hists += fc.sample_pref(rng, g2, 1500 if ctx.thorough else 300, fc.link_then(("write", "create", "delete", "rename")), 0.8)
     # the implementation-shaped generator (Dev: every known-finding deviation) must break the design invariants
     dv = ctx.instance("DEV_FilerNS_C21_counter", "FilerNS", "SPECIFICATION Spec\nINVARIANT LinkCounterIsNames\nCHECK_DEADLOCK FALSE",
                       fc.consts(["create", "link", "delete", "nodata", "rename"], [1], [1], 3, dev=True))
@@ -53,9 +53,9 @@ def run(ctx):
         ctx.model_check(mc, workers=4, timeout=1500)
         g3 = ctx.instance("G3_FilerNS_C21", "FilerNS", "SPECIFICATION Spec\nINVARIANT Emit\nCHECK_DEADLOCK FALSE",
                           fc.consts(MIX + ["mkdir", "update"], [1, 2, 3], [1, 2, 3], 10, links=3))
-        hists += ctx.generate(g3, simulate=400, depth=11)
+        hists += ctx.generate(g3, simulate=200, depth=11)
     hists = [fc.observers(rng, fc.PATHS, [fc.norm_op(op, rng) for op in h], 0.15) for h in hists]
-    hists += fc.random_scripts(rng, 600 if ctx.thorough else 80, 12, WEIGHTS)
+    hists += fc.random_scripts(rng, 400 if ctx.thorough else 80, 12, WEIGHTS)
     hists = fc.finding_scripts("C21") + hists
     fc.drive_and_judge(ctx, hists, nontrivial, mutate, ["C21"])
     ctx.rule = ("executions = one TLC witness history per (namespace state incl. link records, last operation) to depth %d "
